@@ -40,6 +40,8 @@ def patch_tokens(name, mi):
         "selfloop": ["L:.Lx", "o", "jcc:.Lx"],
         "func_body": ["o", "jcc:.Lz", "o", "L:.Lz", "ret"],
         "func_simple": ["o", "ret"],
+        "trail_label": ["o", "L:tl_%d" % mi],
+        "trail_label_data": ["d:1", "L:tl_%d" % mi],
         "alias_data": ["jmp:.Lskip", "L:t1_%d" % mi, "L:t2_%d" % mi, "d:1", "L:.Lskip", "o"],
     }
     if name.startswith("jmp:"):
